@@ -29,7 +29,12 @@ func main() {
 	args := flag.String("args", "", "k=v,k=v extra arguments")
 	journal := flag.String("journal", "", "journal file (execution in progress)")
 	skip := flag.String("skip", "", "comma separated input numbers to skip")
+	show := flag.String("show", "", "debug: comma separated feature labels; prints the bundle and what each oracle of -prop says")
 	flag.Parse()
+	if *show != "" {
+		props.Show(*prop, strings.Split(*show, ";"))
+		return
+	}
 	debug.SetMaxStack(256 << 20)
 	log.SetOutput(io.Discard) // go-openapi/spec logs resolution errors on the standard logger
 
